@@ -200,8 +200,11 @@ class SyncedDict(SyncedCollection, MutableMapping):
 
         """
         if _mapping_resolver.get_type(data) == "MAPPING":
+            # Validate first: the context saves on exit even if the update
+            # fails, and a root that has not loaded must not save then.
+            self._validate(data)
             with self._overwrite_context():
-                self._update(data)
+                self._update(data, _validate=True)
         else:
             raise ValueError(
                 "Unsupported type: {}. The data must be a mapping or None.".format(
